@@ -70,7 +70,9 @@ def run_tlc(name, module, cfg, workers, env_extra=None, timeout=3600, serial_gc=
     shutil.rmtree(meta, ignore_errors=True)
     os.makedirs(meta, exist_ok=True)
     gc = ["-XX:+UseSerialGC"] if serial_gc else ["-XX:+UseParallelGC"]
-    cmd = ["timeout", str(timeout), "java"] + gc + ["-Xmx8g", "-Xss1g",
+    jtmp = os.path.join(meta, "jtmp")      # TLC / SANY scratch files: inside the run's own directory, removed with it
+    os.makedirs(jtmp, exist_ok=True)
+    cmd = ["timeout", str(timeout), "java", f"-Djava.io.tmpdir={jtmp}"] + gc + ["-Xmx8g", "-Xss1g",
            "-Dtlc2.overrides.TLCOverrides=tlc2.overrides.TLCOverrides:verifx.Overrides",
            "-cp", CP, "tlc2.TLC", "-metadir", meta, "-cleanup", "-noGenerateSpecTE",
            "-workers", str(workers), "-config", cfg] + (extra or []) + [module]
